@@ -34,6 +34,10 @@ func id(x uint64) uint64 {
 	return x
 }
 
+func add2(x uint64, y uint64) uint64 {
+	return x*3 + y
+}
+
 func sum3(xs ...uint64) uint64 {
 	var t uint64
 	for _, x := range xs {
@@ -153,6 +157,20 @@ STMTS = {
     "local-type-named-uint32": "type uint32 uint64\nvar big uint64 = 1 << 40\nacc += uint64(uint32(big))",
     "conv-via-int64": "acc += uint64(int64(a))",
     "conv-to-uint16": "acc += uint64(uint16(a))",
+    "compare-uint16-conversions": "if uint16(a|65536) == uint16(a&65535) {\n\tacc += 1\n}",
+    "compare-int64-conversions": "if int64(a) < int64(1) {\n\tacc += 1\n}",
+    "append-two-elements": "var at []uint64\nat = append(at, 1, 2)\nacc += uint64(len(at))",
+    "funclit-named-result-bare-return": "fb := func() (r uint64) {\n\treturn\n}\nacc += fb() + 1",
+    "range-assign-form": "rs := make([]uint64, 2)\nrs[1] = 7\nvar rv uint64\nfor _, rv = range rs {\n}\nacc += rv",
+    "range-assign-form-map": "rm := make(map[uint64]uint64)\nrm[4] = 7\nvar rk uint64\nfor rk = range rm {\n}\nacc += rk",
+    "string-slice-take": "st := \"hello\"\nacc += uint64(len(st[:2]))",
+    "string-slice-skip": "st := \"hello\"\nacc += uint64(len(st[2:]))",
+    "map-lookup-assign-form": "mm := make(map[uint64]uint64)\nmm[1] = 8\nvar mv uint64\nvar mok bool\nmv, mok = mm[1]\nif mok {\n\tacc += mv\n}",
+    "map-lookup-parenthesised": "mm := make(map[uint64]uint64)\nmm[1] = 8\nmv, mok := (mm[1])\nif mok {\n\tacc += mv\n}",
+    "multi-value-call-as-arguments": "acc += add2(two())",
+    "bytes-of-string-via-uint8": "bu := []uint8(\"abc\")\nacc += uint64(len(bu))",
+    "const-fold-wide": "var cw uint64 = (1 << 70) >> 68\nacc += cw",
+    "slice-of-functions-call": "fs := make([]func(uint64) uint64, 1)\nfs[0] = id\nacc += fs[0](3)",
     "bool-to-var-opassign": "var bo uint64 = 6\nbo |= 9\nbo &= 12\nbo ^= 5\nacc += bo",
 }
 
@@ -195,6 +213,7 @@ DECLS = {
     "closure-mutates-captured-var": ("", "(a uint64, b uint64) uint64 {\n\tvar n uint64 = a\n\tg := func() {\n\t\tn = n + 1\n\t}\n\tg()\n\tg()\n\treturn n\n}"),
     "func-param": ("func apply_HOLE(f func(uint64) uint64, x uint64) uint64 {\n\treturn f(x) + 1\n}\n", "(a uint64, b uint64) uint64 {\n\treturn apply_HOLE(id, a)\n}"),
     "interface-method-call": ("type Getter_HOLE interface {\n\tgetA() uint64\n}\n\nfunc useG_HOLE(g Getter_HOLE) uint64 {\n\treturn g.getA() + 1\n}\n", "(a uint64, b uint64) uint64 {\n\treturn useG_HOLE(&S0{a: a})\n}"),
+    "interface-conversion-second-parameter": ("type Getter2_HOLE interface {\n\tgetA() uint64\n}\n\nfunc useG2_HOLE(k uint64, g Getter2_HOLE) uint64 {\n\treturn g.getA() + k\n}\n", "(a uint64, b uint64) uint64 {\n\treturn useG2_HOLE(a, &S0{a: b})\n}"),
     "slice-of-struct-values": ("", "(a uint64, b uint64) uint64 {\n\ts := make([]S0, 2)\n\ts[1] = S0{a: a, b: true}\n\treturn s[1].a + s[0].a\n}"),
     "slice-elem-field-store": ("", "(a uint64, b uint64) uint64 {\n\ts := make([]S0, 2)\n\ts[1].a = a + 3\n\treturn s[1].a\n}"),
     "map-of-slices": ("", "(a uint64, b uint64) uint64 {\n\tm := make(map[uint64][]uint64)\n\tm[1] = append(m[1], a)\n\treturn m[1][0] + uint64(len(m[2]))\n}"),
